@@ -9,15 +9,15 @@ CHECKS = {
          "TLC model checking of operational-vs-reference evaluation + trace validation of the real Expression.at"),
  "C02": ("E-eval", "EvalCases.tla on the boundary universe: every domain-restricted constructor as offending child under every parent kind (zero factors, zero numerators, base one, constant folds, n-ary positions) at points on/next to every boundary; TLC decides 'raises iff undefined' on the recorded outcomes",
          "TLC model checking of domain rules (Verify/Formula guards vs strict reference domain) + trace validation"),
- "C03": ("E-diff", "DiffCases.tla: TLC compares the operational model of forward-mode differentiation (SmDiffNum.Fw: per-node evaluate/verify/recurse/formula with the value memo threaded through) with the dual-number reference DVal on the bounded universe (U2, chain-rule towers, 3-4-factor products, absent variable, Variable/str spelling) and judges every outcome recorded from late Partial.at / Derivative.at",
+ "C03": ("E-diff", "DiffCases.tla: TLC compares the operational model of forward-mode differentiation (SmDiffNum.Fw: per-node evaluate/verify/recurse/formula with the value memo threaded through) with the dual-number reference DVal on the bounded universe (U2, chain-rule towers, 3-4-factor products, absent variable, Variable/str spelling) and judges every outcome recorded from late Partial.at (a fresh object, and a LONG-LIVED object asked twice with an evaluation at another point in between) and Derivative.at (Point / bare number); points include -1/-2 (equal hashes) in sequence and float points next to boundaries",
          "TLC model checking of forward-mode model vs dual-number reference + trace validation of Partial.at / Derivative.at"),
- "C04": ("E-diff", "DiffCases.tla: operational model of reverse mode (SmDiffNum.Rv: multiplier passing, accumulator name->running sum, read-back of the root's variables) vs DVal for every variable at once, incl. DAG pools with shared node objects and zero factors in every position; outcomes recorded from LocatedDifferential.component and Differential.at.component",
+ "C04": ("E-diff", "DiffCases.tla: operational model of reverse mode (SmDiffNum.Rv: multiplier passing, accumulator name->running sum, read-back of the root's variables) vs DVal for every variable at once, incl. DAG pools with shared node objects and zero factors in every position; outcomes recorded from LocatedDifferential.component, Differential.at.component and a LONG-LIVED late Differential (component_at for one variable, then at(p) for all)",
          "TLC model checking of reverse-mode accumulator model vs dual-number reference + trace validation"),
- "C07": ("E-diff", "DiffCases.tla on the boundary universe (offending child under every parent kind where a differentiation rule could skip it: exponent of a base that evaluates to one, factor next to zero, zero numerator, variable-free sub-trees, absent differentiation variable): TLC decides 'raises DomainError iff the reference value is undefined' for every numeric route on recorded outcomes",
+ "C07": ("E-diff", "DiffCases.tla on the boundary universe (offending child under every parent kind where a differentiation rule could skip it: exponent of a base that evaluates to one, factor next to zero, zero numerator, variable-free sub-trees, absent differentiation variable): TLC decides 'raises DomainError iff the reference value is undefined' for every late numeric route and for the EARLY long-lived Partial and early Differential.at (queried before anything else at each point, so stale caches show), KF-1 attributed through the recorded derivation",
          "TLC model checking of domain re-verification in both traversals + trace validation of all late numeric routes"),
  "C14": ("E-eval", "EvalCases.tla with points that supply every subset of the expression's variables plus extra coordinates, and the bare-number entry: TLC decides 'never CoordinateMissing when all occurring variables are supplied', 'never a number when one is lacking', 'bare number accepted iff <= 1 variable'",
          "TLC model checking of coordinate lookup / single-variable entry + trace validation"),
- "C17": ("E-eval", "EvalCases.tla: the operational model returns PyErr wherever Python would raise a foreign exception (math.log of x<=0, ...); TLC checks it is unreachable on the universe (DesignOK) and that no recorded outcome is a foreign exception, NaN, infinity or complex (cases whose exact intermediates overflow are excluded via the float layer)",
+ "C17": ("E-eval", "EvalCases.tla: the operational model returns PyErr wherever Python would raise a foreign exception (math.log of x<=0, ...); TLC checks it is unreachable on the universe (DesignOK) and that no recorded outcome is a foreign exception, NaN, infinity or complex on ANY route: evaluation (EvalCases), every derivative query early and late (DiffCases), as_expression and second-order (SymCases), plus probes of objects that should not be constructible; cases whose exact intermediates over/underflow are excluded via the float layer",
          "TLC model checking that every guard in front of every Python primitive suffices + trace validation"),
  "C08": ("E-reduce", "ReduceCases.tla: SmReduce transcribes every rewrite rule, the children-first driver, both memo flags, constant folding, the NF pass and the step budget; for every input of the rule universe the complete derivation recorded from the real rewriter (single-stepped, flags included) is judged by TLC: every adjacent pair, the NF pair and the end-to-end pair are sound on every grid point w.r.t. the reference semantics; the model is run next to it (step-by-step conformance, and the design-level invariant that every model step is sound except the named finding)",
          "TLC checking of the rewrite system model + step-by-step trace validation of the real rewriter"),
